@@ -28,6 +28,9 @@ from beanquery.numberify import numberify_results  # noqa: E402
 from beanquery.query_execute import execute_print  # noqa: E402
 
 PROP = 'C19'
+# results that depend on what the process executed earlier violate this property even when every operation
+# agrees with its in-process reference (see driver.find_cross_execution_dependence)
+CROSS_EXECUTION_IS_VIOLATION = True
 RULE = ('one run = either a seeded shell history (1-2 BQLShell sessions in one process, <= 30 lines each: .set in all '
         'forms, BQL statements in any letter case, .run, .tables/.describe/.explain, unknown and dot-prefixed-keyword '
         'commands, legacy bare commands; driven through onecmd or the real cmdloop; writer faults on the k-th write) or a '
